@@ -16,8 +16,8 @@ import (
 type pairCtl struct {
 	mu       sync.Mutex
 	running  map[string]chan struct{} // "graph/id"
-	perGraph [2]int
-	peak     [2]int
+	perGraph [3]int
+	peak     [3]int
 	perTask  map[string]int
 	taskPeak int
 	events   int
@@ -75,10 +75,10 @@ func runPair(r *rand.Rand, grace time.Duration) ([]OracleHit, map[string]interfa
 		}
 		return tasks[i]
 	}
-	caps := [2]int{1 + r.Intn(3), 1 + r.Intn(3)}
-	graphs := [2]*dag.Graph{}
+	caps := [3]int{1 + r.Intn(3), 1 + r.Intn(3), 1 + r.Intn(3)}
+	graphs := [3]*dag.Graph{}
 	desc := map[string]interface{}{"tasks": n, "caps": caps}
-	for gi := 0; gi < 2; gi++ {
+	for gi := 0; gi < 3; gi++ {
 		g := dag.NewGraph(fmt.Sprintf("g%d", gi))
 		g.TickerDuration = 200 * time.Microsecond
 		g.SetMaxParallel(caps[gi])
@@ -98,7 +98,7 @@ func runPair(r *rand.Rand, grace time.Duration) ([]OracleHit, map[string]interfa
 	}
 	var wg sync.WaitGroup
 	done := make(chan struct{})
-	for gi := 0; gi < 2; gi++ {
+	for gi := 0; gi < 3; gi++ {
 		wg.Add(1)
 		go func(gi int) {
 			defer wg.Done()
@@ -152,7 +152,7 @@ loop:
 	}
 	c.mu.Lock()
 	defer c.mu.Unlock()
-	for gi := 0; gi < 2; gi++ {
+	for gi := 0; gi < 3; gi++ {
 		if c.peak[gi] > caps[gi] {
 			hits = append(hits, OracleHit{Key: "bound", What: fmt.Sprintf("graph %d with SetMaxParallel(%d) had %d task functions executing at once while sharing tasks with another graph", gi, caps[gi], c.peak[gi])})
 		}
